@@ -47,6 +47,15 @@ func mParse(name, q []byte, noids int) []byte {
 	return msg('P', b)
 }
 
+// a Parse message that prespecifies parameter types
+func mParseOids(name, q []byte, oids []uint32) []byte {
+	b := cat(cs(name), cs(q), be16b(len(oids)))
+	for _, o := range oids {
+		b = append(b, be32b(o)...)
+	}
+	return msg('P', b)
+}
+
 type bindP struct {
 	null bool
 	v    []byte
